@@ -133,6 +133,19 @@ def bindings():
     ok &= corrupt_and_validate("TraceSimd(access)", "TraceSimd", g("C12", "simd.events.0.ndjson"), None, lambda evs, kb: first_nonempty(evs, kb, simd_acc, "a packed access moved to the end of its buffer"))
     ok &= corrupt_and_validate("TraceStatic(value)", "TraceStatic", g("C11", "static0.events.0.ndjson"), None, lambda evs, kb: first_nonempty(evs, kb, stat, "first element of the evaluated result + 1"))
     ok &= corrupt_and_validate("TraceStatic(trait)", "TraceStatic", g("C11", "static0.events.0.ndjson"), None, lambda evs, kb: first_nonempty(evs, kb, stat_trait, "a fixed_dim trait that the run-time dimension contradicts"))
+    def join_at(e):
+        r = e.get("res", {})
+        if e.get("op") == "join" and r.get("at"): r["at"][0] += 1; return True
+    def join_range(e):
+        r = e.get("res", {})
+        if e.get("op") == "join" and r.get("join") and max(e.get("bounds", [0])) > 1: r["join"][1] = 1; return True      # a joined type that cannot hold the largest bound
+    def dag_edge(e):
+        r = e.get("res", {})
+        if e.get("op") == "graph_dag" and r.get("elems") and r.get("shape", [0, 0])[1] >= 3:
+            r["elems"] = r["elems"][:-2]; r["shape"][1] -= 1; return True                                                    # one edge of the extracted graph is missing
+    ok &= corrupt_and_validate("TraceStatic(join, extent)", "TraceStatic", g("C11", "clipped_join.events.0.ndjson"), None, lambda evs, kb: first_nonempty(evs, kb, join_at, "an extent read at a run-time position + 1"))
+    ok &= corrupt_and_validate("TraceStatic(join, range)", "TraceStatic", g("C11", "clipped_join.events.0.ndjson"), None, lambda evs, kb: first_nonempty(evs, kb, join_range, "the joined index type's upper bound set to 1"))
+    ok &= corrupt_and_validate("TraceOps(C14, compute graph)", "TraceOps", g("C14", "graph_dag.events.0.ndjson"), None, lambda evs, kb: first_nonempty(evs, kb, dag_edge, "one edge removed from an extracted compute graph"))
     return ok
 
 
